@@ -2,6 +2,7 @@ import NgVerif.Proofs.Fault
 import NgVerif.Proofs.Coords
 import NgVerif.Proofs.CsegPrefix
 import NgVerif.Model.Http
+import NgVerif.Proofs.Buffers
 /-
   C18 — I/O failures and interrupted writes never yield silently wrong data.
   The store of one chunk as a program of I/O primitives under an injected failure or an
@@ -169,5 +170,44 @@ theorem http_failure_is_error (r : Http.Reply) (length : Nat)
 
 /-- non-vacuity: a 2-value uint16 chunk, gzip, write fails after 5 stream bytes -/
 example : (storeRun true 30 .absent (Raw.encode 2 [513, 7]) (.fault 2 5)) = (.dataAccess, .gzTorn) := by decide
+
+/-! ### the sharded writer's disk-backed buffers under I/O failures (defects F35, F36, repaired) -/
+
+open NgVerif.Buffers in
+/-- `OnDiskByteArray` after ANY history of appends, each of which may fail at `open` or after any number
+    of bytes of its payload reached the file: the buffer file holds exactly the payloads of the appends
+    that returned normally, in order, and the length the object reports is the length of that file — so
+    "everything stored earlier" keeps its place when one append fails and the caller goes on -/
+theorem disk_buffer_holds_exactly_the_successful_appends (hist : List (List Nat × Ev)) :
+    (runAdds add ⟨[], 0⟩ hist).file = memory hist ∧
+    (runAdds add ⟨[], 0⟩ hist).len = (memory hist).length := by
+  simpa using runAdds_spec ⟨[], 0⟩ rfl hist
+
+open NgVerif.Buffers in
+/-- regression witness for F35: before the repair one failed append (nothing written) made the reported
+    length disagree with the file for good — the offsets of every later minishard of the shard were
+    computed from it -/
+theorem old_disk_buffer_counterexample :
+    let b := runAdds addOld ⟨[], 0⟩ [([1, 2], .failOpen), ([3], .ok)]
+    b.file = [3] ∧ b.len = 3 := by decide
+
+open NgVerif.Buffers NgVerif.MS in
+/-- `flush_buffer` whose append number `okN + 1` raises, for every state, enumeration and `okN`: every
+    chunk that was waiting in the reorder buffer is still there with its bytes, or is one of the chunks
+    this flush appended; and the data grew by exactly the appended payloads. No chunk whose store had
+    returned normally disappears. -/
+theorem failed_flush_loses_no_chunk (nxt : Nat → Nat) (f okN : Nat) (s : St) :
+    (∀ id p, get? s.buf id = some p →
+      get? (flushFail nxt f okN s).1.buf id = some p ∨ (id, p) ∈ (flushFail nxt f okN s).2) ∧
+    (flushFail nxt f okN s).1.data = s.data ++ ((flushFail nxt f okN s).2.flatMap (·.2)) :=
+  ⟨fun id p h => flushFail_keeps nxt f okN s id p h, flushFail_data nxt f okN s⟩
+
+open NgVerif.Buffers NgVerif.MS in
+/-- regression witness for F36: before the repair the chunk was taken out of the buffer first; when its
+    append failed it was neither buffered nor appended -/
+theorem old_flush_counterexample :
+    let s : St := ⟨0, 0, [(0, [7])], [], []⟩
+    let r := flushFailOld id 1 0 s
+    get? s.buf 0 = some [7] ∧ get? r.1.buf 0 = none ∧ r.2 = [] ∧ r.1.data = [] := by decide
 
 end NgVerif.Props.C18
